@@ -69,6 +69,10 @@ type sessionTracker struct {
 // RemoteLogin validates and checks if there is an auditd session already present for the
 // RemoteLogin passed as parameter. It modifies the user object by setting the remote login information.
 func (o *sessionTracker) RemoteLogin(rul common.RemoteUserLogin) error {
+	if common.VerifEnabled {
+		defer common.VerifSched(&o.mu, "RemoteLogin")()
+	}
+
 	o.mu.Lock()
 	defer o.mu.Unlock()
 
@@ -150,6 +154,10 @@ func (o *sessionTracker) RemoteLogin(rul common.RemoteUserLogin) error {
 // It checks if the event session is present in active audit sessions and then it triggers the audit with that session.
 // If the event is not present then it triggers the audit without the session.
 func (o *sessionTracker) AuditdEvent(event *aucoalesce.Event) error {
+	if common.VerifEnabled {
+		defer common.VerifSched(&o.mu, "AuditdEvent")()
+	}
+
 	o.mu.Lock()
 	defer o.mu.Unlock()
 
@@ -305,6 +313,10 @@ func (o *sessionTracker) auditEventWithoutSession(event *aucoalesce.Event, debug
 // DeleteUsersWithoutLoginsBefore it takes a time parameter. It iterates over active audit sessions.
 // If the session is added before the timestamp and the user does not have a remote login, then it deletes that session.
 func (o *sessionTracker) DeleteUsersWithoutLoginsBefore(t time.Time) {
+	if common.VerifEnabled {
+		defer common.VerifSched(&o.mu, "DeleteUsersWithoutLoginsBefore")()
+	}
+
 	o.mu.Lock()
 	defer o.mu.Unlock()
 
@@ -337,6 +349,10 @@ func (o *sessionTracker) DeleteUsersWithoutLoginsBefore(t time.Time) {
 // It iterates over remote user logins and checks if a login was before the timestamp,
 // then it deletes that remote user login.
 func (o *sessionTracker) DeleteRemoteUserLoginsBefore(t time.Time) {
+	if common.VerifEnabled {
+		defer common.VerifSched(&o.mu, "DeleteRemoteUserLoginsBefore")()
+	}
+
 	o.mu.Lock()
 	defer o.mu.Unlock()
 
